@@ -1332,11 +1332,25 @@ class ClassNode(AstNode, NamespaceMixin):
         new.scope_file = self.scope_file[:]
 
         # Clone all functions.
+        # A function declared in a block has the block's scopes between
+        # its own and the class': keep them (cloned once per block).
+        cloned = {}
+
+        def rehome(scope, old_top, new_top):
+            parent = scope.get_parent()
+            if parent is None or parent is old_top:
+                scope.reparent(new_top)
+            else:
+                if id(parent) not in cloned:
+                    cloned[id(parent)] = parent.clone()
+                    rehome(cloned[id(parent)], old_top, new_top)
+                scope.reparent(cloned[id(parent)])
+
         newfcns = []
         for fcn in self.functions:
             newfcn = fcn.clone()
-            newfcn.fmtdict.reparent(new.fmtdict)
-            newfcn.options.reparent(new.options)
+            rehome(newfcn.fmtdict, self.fmtdict, new.fmtdict)
+            rehome(newfcn.options, self.options, new.options)
             newfcns.append(newfcn)
         new.functions = newfcns
 
